@@ -10,10 +10,36 @@
    length and accepts a short read (bytes.Buffer returns what is left without an error), so a
    truncated final byte vector with at least one byte present is zero-filled and accepted
    (known finding bytes-overrun, shared with C12). *)
+(* Audit round (aud-rpc-host): lengths are Compact<u32> on the specification side (dec_len: a Vec
+   length of 2^32 or more is not decodable), and the Go side models decodeLength/decodeUint as it
+   is (dec_len_go: canonical encodings, in the big-integer mode only 4- or 8-byte payloads) and
+   decodeBytes' check `length > math.MaxUint32`.  Before, both sides used the general compact decoder,
+   which made the Go model accept (and zero-fill) byte vectors declaring 2^32.. bytes that the Go
+   code rejects. *)
 From Common Require Import Bytes.
 From Trie Require Import Nibbles Node Encode Model Spec.
 From C10 Require Import ScaleCompact.
 Local Open Scope N_scope.
+
+Definition two32 : N := 4294967296.
+
+(* specification: the length of a SCALE Vec is a Compact<u32> *)
+Definition dec_len (d : list byte) : option (N * list byte) :=
+  match compact_decode d with
+  | Some (n, r) => if n <? two32 then Some (n, r) else None
+  | None => None
+  end.
+
+(* Go: decodeLength = decodeUint into a uint (64 bit).  Modes 0..2 and the canonicity checks are those of
+   compact_decode; in the big-integer mode byteLen = (prefix>>2)+4 must be 4 or 8
+   (ErrCompactUintPrefixUnknown otherwise). *)
+Definition dec_len_go (d : list byte) : option (N * list byte) :=
+  match d with
+  | [] => None
+  | b0 :: _ =>
+    if (b2n b0 mod 4 =? 3) && negb ((b2n b0 / 4 =? 0) || (b2n b0 / 4 =? 4)) then None
+    else compact_decode d
+  end.
 
 Definition parse_version (v : N) : option version :=
   let b := v mod 256 in                       (* uint8(version) *)
@@ -21,7 +47,7 @@ Definition parse_version (v : N) : option version :=
 
 (* a SCALE byte vector: compact length, then that many bytes *)
 Definition dec_bytes (d : list byte) : option (list byte * list byte) :=
-  match compact_decode d with
+  match dec_len d with
   | Some (n, r) => if N.of_nat (length r) <? n then None else take (N.to_nat n) r
   | None => None
   end.
@@ -40,7 +66,7 @@ Fixpoint dec_pairs (n : nat) (d : list byte) : option (list (list byte * value))
     end
   end.
 Definition dec_entries (d : list byte) : option (list (list byte * value)) :=
-  match compact_decode d with
+  match dec_len d with
   | Some (n, r) => if N.of_nat (length r) <? 2 * n then None else dec_pairs (N.to_nat n) r
   | None => None
   end.
@@ -55,7 +81,7 @@ Fixpoint dec_vals (n : nat) (d : list byte) : option (list value) :=
     end
   end.
 Definition dec_values (d : list byte) : option (list value) :=
-  match compact_decode d with
+  match dec_len d with
   | Some (n, r) => if N.of_nat (length r) <? n then None else dec_vals (N.to_nat n) r
   | None => None
   end.
@@ -72,9 +98,10 @@ Fixpoint index_entries (i : N) (vs : list value) : list (list byte * value) :=
    The zero filling is only materialised (pad_zero) once the whole input has been accepted: after a
    short read the buffer is empty, so any further element fails with io.EOF whatever was filled in. *)
 Definition dec_bytes_go (d : list byte) : option (list byte * N * list byte) :=
-  match compact_decode d with
+  match dec_len_go d with
   | Some (n, r) =>
-    if n =? 0 then Some ([], 0, r)
+    if two32 <=? n then None                                 (* length > math.MaxUint32 *)
+    else if n =? 0 then Some ([], 0, r)
     else match r with
          | [] => None                                       (* Read on an empty buffer: io.EOF *)
          | _ => if N.of_nat (length r) <? n
@@ -108,7 +135,7 @@ Fixpoint dec_pairs_go (n : nat) (d : list byte) : option (list (list byte * valu
 (* every element consumes at least two bytes, so a count above the input length fails; the bound keeps
    the model from unfolding an absurd declared count *)
 Definition dec_entries_go (d : list byte) : option (list (list byte * value)) :=
-  match compact_decode d with
+  match dec_len_go d with
   | Some (n, r) => if N.of_nat (length r) <? 2 * n then None else dec_pairs_go (N.to_nat n) r
   | None => None
   end.
@@ -123,7 +150,7 @@ Fixpoint dec_vals_go (n : nat) (d : list byte) : option (list value) :=
     end
   end.
 Definition dec_values_go (d : list byte) : option (list value) :=
-  match compact_decode d with
+  match dec_len_go d with
   | Some (n, r) => if N.of_nat (length r) <? n then None else dec_vals_go (N.to_nat n) r
   | None => None
   end.
